@@ -226,6 +226,18 @@ class Evaluator:
         for k, v in self.consts.items():
             if name.endswith(k):
                 return v
+        # a named constant of the workspace whose value the driver evaluated (integers, bool, f32 / f64 bit patterns)
+        pc = getattr(self.P, "consts", {}).get(c.get("uvp") or "")
+        if pc is not None and "v" in pc and "promoted" not in c:
+            bits, ty = int(pc["v"]), pc.get("ty")
+            if ty == "f32":
+                import struct
+                return struct.unpack("<f", bits.to_bytes(4, "little"))[0]
+            if ty == "f64":
+                import struct
+                return struct.unpack("<d", bits.to_bytes(8, "little"))[0]
+            if ty == "bool":
+                return int(bits)
         if "fn" in c:
             return ("fnptr", c["fn"].get("rp") or c["fn"]["p"])
         s = str(c.get("s"))
